@@ -94,6 +94,10 @@ func init() {
 							return
 						}
 					}
+					if pastDeadline() {
+						r.Truncated = true
+						return
+					}
 					timeReset(nil, false)
 					x, v := engine.RunHistory(sc, cfg, pre, hist)
 					if v != nil {
@@ -183,6 +187,7 @@ func clockSweep(tier Tier, rep *engine.Report) error {
 		}(s)
 	}
 	wg.Wait()
+	noteTruncated(rep, "C15 clock sweep", res...)
 	cases, runs, pts := 0, 0, 0
 	for s, e := range errs {
 		if e != nil {
